@@ -183,6 +183,32 @@ fn pure_main() {
                 let cli: Vec<String> = f[2..].iter().map(|x| hs(x)).collect();
                 catch(move || config_case(&toml_s, &cli))
             }
+            // the encoder of the line codec, then its own decoder on what was written: hex of the bytes | decoded lines
+            "E" => {
+                let lines: Vec<String> = (1..f.len()).map(|i| arg(i)).collect();
+                catch(move || {
+                    use bytes::BytesMut;
+                    use tokio_util::codec::{Decoder, Encoder};
+                    let mut codec = IRCLinesCodec::new_with_max_length(2000);
+                    let mut buf = BytesMut::new();
+                    for l in lines {
+                        codec.encode(l, &mut buf).unwrap();
+                    }
+                    let hexs: String = buf.iter().map(|b| format!("{:02x}", b)).collect();
+                    let mut dec = Vec::new();
+                    loop {
+                        match codec.decode(&mut buf) {
+                            Ok(Some(l)) => dec.push(l.as_bytes().iter().map(|b| format!("{:02x}", b)).collect::<String>()),
+                            Ok(None) => break,
+                            Err(e) => {
+                                dec.push(format!("ERR:{}", e));
+                                break;
+                            }
+                        }
+                    }
+                    format!("{} | {} | {}", hexs, dec.join(" "), buf.len())
+                })
+            }
             _ => "?".to_string(),
         };
         writeln!(out, "{}", r).unwrap();
